@@ -568,6 +568,12 @@ pub fn build_c06(quick: bool) -> Vec<Scenario> {
         v.push(mk_hold::<Mpsc>(w, &[('t', 1)], &[('C', "U")]));
         v.push(mk_hold::<Mpsc>(w, &[('c', 1)], &[('T', "U")]));
     }
+    // more than one queue block of messages: the channel's queue crosses its block boundary (mpsc / mpmc 64, spsc 32 slots)
+    for w in [1usize, 2] {
+        v.push(mk_deliver::<Mpsc>(w, &[('C', 2)], &[('C', "RR")], 63, false, p));
+        v.push(mk_deliver::<Spsc>(w, &[('C', 2)], &[('C', "RR")], 31, false, p));
+        v.push(mk_deliver::<Mpmc>(w, &[('C', 1), ('T', 1)], &[('C', "R"), ('C', "R")], 63, false, p));
+    }
     // the send meets the expiry of the receiver's recv_timeout: the value is delivered by that call or by the next one
     for s in [mk_deliver::<Mpmc>(1, &[('t', 1)], &[('T', "T")], 0, false, p), mk_deliver::<Mpsc>(1, &[('t', 1)], &[('T', "T")], 0, false, p)] {
         // and with the sender ahead of the receiver in the default schedule
